@@ -39,6 +39,8 @@ def run(ctx):
     ctx.each(r16p, ctx, repo)
     ctx.each(r16q, ctx, repo)
     ctx.each(r16r, ctx, repo)
+    ctx.each(r16s, ctx, repo)
+    ctx.each(pop_matrix_rows_rule, ctx, repo, "R16aa")
     ctx.each(informational, ctx, repo)
 
 
@@ -894,3 +896,56 @@ def r16r(ctx, repo):
     ctor = [c for c in ast.walk(rd.node) if isinstance(c, ast.Call) and ast.unparse(c.func) == "Program"]
     kw = {k.arg: ast.unparse(k.value) for k in ctor[0].keywords} if ctor else {}
     ctx.check(len(ctor) == 1 and kw.get("target_pops") == "target_pops" and kw.get("target_comps") == "target_comps", "R16r", rd, enclosing_stmt(ctor[0]) if ctor else rd.node, "both target lists handed to Program(...)", "the program is not built with Program(target_pops=target_pops, target_comps=target_comps)", stmt_text="read-targets:ctor")
+
+
+def r16s(ctx, repo):
+    ctx.rule("R16s", "every transition survives the framework spreadsheet: ProjectFramework.to_spreadsheet rebuilds the Transitions matrices by iterating over all entries of self.transitions - the parameter names and the special residual key '>' alike (the reader _process_transitions stores both in that mapping) - and writes each pair whose source compartment belongs to the matrix's population type; an iteration over the Parameters sheet instead would drop the parameter-less residual links of junctions")
+    fi = repo.func("framework", "ProjectFramework.to_spreadsheet")
+    me = fi.params[0]
+    loops = [l for l in own_nodes(fi.node) if isinstance(l, ast.For) and ast.unparse(l.iter) in ("%s.transitions.items()" % me, "%s.transitions" % me, "%s.transitions.keys()" % me, "sorted(%s.transitions.items())" % me)]
+    ok = len(loops) == 1
+    ctx.check(ok, "R16s", fi, loops[0] if loops else fi.node, "the transitions matrices are rebuilt from every key of self.transitions", "to_spreadsheet does not iterate over `self.transitions` itself when it rebuilds the Transitions sheet: entries that are not on the Parameters sheet (the residual '>' links) are not written, and the framework read back has lost them", stmt_text="transitions-iter")
+    if ok:
+        lp = loops[0]
+        st = [s_ for s_ in ast.walk(lp) if isinstance(s_, ast.Assign) and isinstance(s_.targets[0], ast.Subscript) and ".at" in ast.unparse(s_.targets[0].value)]
+        from ..core.cfg import branch_guards
+
+        g = [ast.unparse(t) for s_ in st[:1] for t, p in branch_guards(s_, stop=lp) if p]
+        okg = bool(st) and all(("matching_comps" in x) or x.startswith("not df.at") or ("df.at" in x) for x in g)
+        ctx.check(okg, "R16s", fi, st[0] if st else lp, "each pair is written when its source compartment belongs to the matrix", "the cell of a transition is written only under %s: transitions are filtered by something else than the population type of their source compartment" % g, stmt_text="transitions-cell")
+    rd = repo.func("framework", "ProjectFramework._process_transitions")
+    stores = [c for c in ast.walk(rd.node) if isinstance(c, ast.Call) and isinstance(c.func, ast.Attribute) and c.func.attr == "append" and ".transitions[" in ast.unparse(c.func.value)]
+    ctx.check(len(stores) >= 1, "R16s", rd, enclosing_stmt(stores[0]) if stores else rd.node, "the reader stores every name of a cell (parameter or '>') in self.transitions", "_process_transitions no longer appends the (from, to) pair to `self.transitions[<name>]`", stmt_text="transitions-read")
+
+
+def pop_matrix_rows_rule(ctx, repo, rule):
+    ctx.rule(rule, "the tables of an Interactions / Transfers sheet do not overlap: TimeDependentConnections._write_pop_matrix writes one row per element of the collection whose loop index offsets the *row* of the heading it writes, and returns the next free row as start_row + 1 + len(<that same collection>) + 1; with another collection the next table is written over the last rows of the matrix whenever there are more source than target populations, and the book the library just wrote is rejected by its own reader")
+    fi = repo.func("excel", "TimeDependentConnections._write_pop_matrix")
+    rows, cols = set(), set()
+    for lp in own_nodes(fi.node):
+        if isinstance(lp, ast.For) and isinstance(lp.iter, ast.Call) and ast.unparse(lp.iter.func) == "enumerate" and isinstance(lp.target, ast.Tuple):
+            i = ast.unparse(lp.target.elts[0])
+            coll = ast.unparse(lp.iter.args[0])
+            for c in ast.walk(lp):
+                if isinstance(c, ast.Call) and isinstance(c.func, ast.Attribute) and c.func.attr.startswith("write") and len(c.args) >= 2:
+                    if i in {x.id for x in ast.walk(c.args[0]) if isinstance(x, ast.Name)}:
+                        rows.add(coll)
+                    if i in {x.id for x in ast.walk(c.args[1]) if isinstance(x, ast.Name)}:
+                        cols.add(coll)
+    ctx.require(len(rows) == 1 and len(cols) == 1, "%s: row / column heading loops of _write_pop_matrix not recognised (rows %s, columns %s)" % (rule, sorted(rows), sorted(cols)))
+    rowc = next(iter(rows))
+    nr = [s_ for s_ in own_nodes(fi.node) if isinstance(s_, ast.Assign) and astq.is_name(s_.targets[0], "next_row")]
+    rets = [r for r in own_nodes(fi.node) if isinstance(r, ast.Return) and r.value is not None]
+    expr = nr[-1].value if nr else (rets[0].value.elts[0] if rets and isinstance(rets[0].value, ast.Tuple) else None)
+    ok = expr is not None
+    if ok:
+        lens = [ast.unparse(c.args[0]) for c in ast.walk(expr) if isinstance(c, ast.Call) and ast.unparse(c.func) == "len" and c.args]
+        ok = lens == [rowc]
+        if ok:
+            from ..core import algebra as A
+
+            try:
+                ok = A.poly(expr) == A.poly(A.parse("start_row + 1 + len(%s) + 1" % rowc))
+            except A.NotPolynomial:
+                ok = False
+    ctx.check(ok, rule, fi, nr[-1] if nr else fi.node, "next free row = start_row + 1 + len(%s) + 1 (rows are %s)" % (rowc, rowc), "`%s` does not advance by the number of rows written (one per element of `%s`, whose index offsets the row of the headings) plus the header and one blank row: the following table overlaps the matrix, or floats away from it" % (norm(nr[-1])[:80] if nr else "next_row", rowc), stmt_text="pop-matrix-next-row")
